@@ -48,6 +48,9 @@ type aggRec struct {
 	Delta    [2]uint64
 	TCPState string
 	Corr     map[string]string // correlate fields, "" / "0" = empty
+	// Layout: the order in which the exporter that sent this record lists the elements (records are
+	// looked at by element name; two exporters, or one exporter after a template change, need not agree)
+	Layout int
 }
 
 type nodeAgg struct {
